@@ -522,6 +522,15 @@ def u17(led, rid, ctx):
             modes = [h.val for h in guards_of(g, b["id"]) if h.kind == "variant" and h.val in ("OneUIP", "AllDecision")]
             if k_.k == "const" and modes:
                 rows[modes[-1]] = (e.a, k_.a)
+            elif k_.k in ("phi", "local"):
+                # the threshold is a local chosen per mode before the loop: one constant per mode arm
+                from ..flow import const_defs, root_local as _rl
+                from ..facts import op_place
+                kl = _rl(g, st["rv"]["b"]) if op_place(st["rv"]["b"]) is not None else None
+                for bb2, v in (const_defs(g, kl) or []) if kl is not None else []:
+                    ms = [h.val for h in guards_of(g, bb2) if h.kind == "variant" and h.val in ("OneUIP", "AllDecision") and not h.neg]
+                    if ms:
+                        rows[ms[-1]] = (e.a, v)
     want = {"OneUIP": ("Gt", 1), "AllDecision": ("Gt", 0)}
     norm = {m: (("Gt", k - 1) if op == "Ge" else (op, k)) for m, (op, k) in rows.items()}
     for m, w in want.items():
